@@ -53,14 +53,42 @@ def defs_of(cfg: CFG, name: str) -> List[Node]:
     return [n for n in cfg.live if name in node_defs(n)]
 
 
-def reaching_defs(cfg: CFG, use: Node, name: str) -> List[Node]:
-    """Definitions of `name` that reach `use` (a def at `use` itself does not count)."""
+def correlated_edges(cfg: CFG, use: Node):
+    """Edges that cannot be on a path to `use`: `use` is dominated by edge (C, L) of a
+    condition with text X; another condition C2 with the same text, evaluated earlier
+    with no redefinition of X's variables in between, must have taken L too."""
+    from .cfg import dominating_edges
+
+    out = []
+    for c, l in dominating_edges(cfg, use):
+        if c.kind != "cond" or l not in ("T", "F"):
+            continue
+        txt = norm(c.ast)
+        nms = names_in(c.ast)
+        if any(isinstance(x, ast.Call) for x in ast.walk(c.ast)):
+            continue  # only pure tests over locals
+        for c2 in cfg.conds():
+            if c2 is c or norm(c2.ast) != txt:
+                continue
+            between = reach(cfg, [b for b, _ in c2.succ])
+            if c not in between:
+                continue
+            redefined = any(n2 in between and c in reach(cfg, [n2]) and (set(node_defs(n2)) & nms) for n2 in cfg.live)
+            if not redefined:
+                out.append((c2, "F" if l == "T" else "T"))
+    return out
+
+
+def reaching_defs(cfg: CFG, use: Node, name: str, correlate: bool = False) -> List[Node]:
+    """Definitions of `name` that reach `use` (a def at `use` itself does not count).
+    With correlate=True, paths that contradict a condition dominating `use` are ignored."""
     ds = defs_of(cfg, name)
+    be = correlated_edges(cfg, use) if correlate else []
     out = []
     for d in ds:
         others = [x for x in ds if x is not d]
         starts = [b for b, _ in d.succ]
-        r = reach(cfg, starts, blocked_nodes=[x for x in others if x is not use])
+        r = reach(cfg, starts, blocked_nodes=[x for x in others if x is not use], blocked_edges=be)
         if use in r or (use in starts):
             out.append(d)
     return out
